@@ -207,6 +207,29 @@ def oracle_trend(case, ctx):
         elif not np.allclose(p2.to_numpy(dtype=float), exp2, rtol=1e-6, atol=1e-6 * scale):
             discs.append(D("polytrend_after_update_without_refit", "degree=%d intercept=%s n=%d +%d fh=%s: got %s expected %s"
                            % (deg, icpt, n, m, steps, p2.tolist(), exp2.tolist())))
+    mr = case.get("moved_refit") or 0
+    if mr and not m and not discs:
+        # new observations arrive and the parameters are updated (the default): the polynomial
+        # is the least-squares fit over EVERYTHING observed, old and new
+        y_new = gen.build_series([float(v[-1]) + 0.5 * (j + 1) - 0.07 * (j + 1) ** 2 for j in range(mr)], cutoff + 1, case["index_kind"])
+        u = sut(f.update, y_new)
+        if isinstance(u, Raised):
+            return [unexpected(u, "update()")]
+        steps3 = [h for h in steps if h > -(n + mr - 1)]
+        p3 = sut(f.predict, gen.build_fh(steps3, case["fh_kind"]))
+        if isinstance(p3, Raised):
+            return [unexpected(p3, "predict(%s) after update" % steps3)]
+        vv = np.concatenate([v.astype(float), y_new.to_numpy(dtype=float)])
+        t3 = np.arange(len(vv), dtype=float)
+        coef3, *_ = np.linalg.lstsq(np.column_stack([t3 ** k for k in powers]), vv, rcond=None)
+        tp3 = np.array([len(vv) - 1 + h for h in steps3], dtype=float)
+        exp3 = np.column_stack([tp3 ** k for k in powers]) @ coef3
+        ctx.label("updated_with_refit")
+        if [int(i) for i in p3.index] != [cutoff + mr + h for h in steps3]:
+            discs.append(D("forecast_index", "after update: fh=%s index=%s" % (steps3, list(p3.index))))
+        elif not np.allclose(p3.to_numpy(dtype=float), exp3, rtol=1e-6, atol=1e-6 * max(scale, float(np.max(np.abs(vv))))):
+            discs.append(D("polytrend_after_update_with_refit", "degree=%d intercept=%s n=%d +%d fh=%s: got %s expected %s"
+                           % (deg, icpt, n, mr, steps3, p3.tolist(), exp3.tolist())))
     ctx.label("degree=%d" % deg)
     ctx.mark_nontrivial((not icpt) or case["start"] != 0 or any(h <= 0 for h in steps))
     if not icpt:
@@ -228,6 +251,7 @@ def trend_cases(draw):
         "start": draw(gen.index_start), "index_kind": draw(gen.index_kind),
         "fh_kind": draw(st.sampled_from(["list", "array", "fh"])),
         "prefit": draw(st.sampled_from([0, 0, 2, 5])), "moved": draw(st.sampled_from([0, 0, 1, 3])), "int_dtype": draw(st.integers(0, 3)) == 0,
+        "moved_refit": draw(st.sampled_from([0, 2, 5])),
     }
 
 
